@@ -288,7 +288,15 @@ fn reset_faults(pre: &Machine, scn: &Scn, known: &Known, at: (usize, u32), ctx: 
             return Err(v("reset-untouched", at, format!("master_reset: the UIO pin levels changed 0b{:03b} -> 0b{:03b}", p.dasr().bits() & 7, b.dasr().bits() & 7)));
         }
     }
-    hidden_state(&c, construct(pre, true, known), at, "master_reset", ctx)?;
+    // (the UART data byte after a master reset is pinned by no statement: kept or cleared)
+    {
+        let mut k2 = known.clone();
+        k2.uart = None;
+        let cleared_ok = known.uart.is_some() && construct(pre, true, &k2).map(|e| e == c).unwrap_or(false);
+        if !cleared_ok {
+            hidden_state(&c, construct(pre, true, known), at, "master_reset", ctx)?;
+        }
+    }
 
     // ---- master reset issued on the bus (public `Bus::master_reset`): the bus-side part of the same rule
     {
@@ -356,14 +364,25 @@ fn reset_faults(pre: &Machine, scn: &Scn, known: &Known, at: (usize, u32), ctx: 
             return Err(v("load-master-reset", at, "load: board outputs / interrupt control / fan / UIO directions survived the load".into()));
         }
     }
-    if let Some(mut e) = construct(pre, true, known) {
-        let mem = e.raw_mut().bus_mut().memory_mut();
-        for i in 0..240 {
-            mem[i] = scn.follow.bytes.get(i).copied().unwrap_or(0);
+    {
+        let build = |k: &Known| -> Option<Machine> {
+            let mut e = construct(pre, true, k)?;
+            let mem = e.raw_mut().bus_mut().memory_mut();
+            for i in 0..240 {
+                mem[i] = scn.follow.bytes.get(i).copied().unwrap_or(0);
+            }
+            e.raw_mut().set_stacksize(c.stacksize());
+            e.raw_mut().set_programsize(c.programsize());
+            Some(e)
+        };
+        let mut k2 = known.clone();
+        k2.uart = None;
+        let cleared_ok = known.uart.is_some() && build(&k2).map(|e| e == c).unwrap_or(false);
+        if !cleared_ok {
+            if let Some(e) = build(known) {
+                hidden_state(&c, Some(e), at, "load", ctx)?;
+            }
         }
-        e.raw_mut().set_stacksize(c.stacksize());
-        e.raw_mut().set_programsize(c.programsize());
-        hidden_state(&c, Some(e), at, "load", ctx)?;
     }
     // cycle-for-cycle like a newly created machine
     let mut fresh = Machine::new_with_program(MachineConfig::default(), scn.follow.bytecode());
